@@ -3,7 +3,12 @@
 
     A case is a list of operation specs, each a list of numbers
     [author; group; depref; kind; target; level; m1; m2; ...]
-      depref  0 = the replica's current heads, k+1 = the heads after the k-th operation of the case
+      depref  0 = the replica's current heads,
+              k+1 (k < 1000) = the heads after the k-th operation of the case,
+              1001+m (m < 2^20) = the subset of the sorted current heads selected by the bits of [m]
+                (bit j = j-th head; all heads if that selects nothing),
+              2^32+1+m = exactly the operation ids [j] with bit j of [m] set (any set of earlier
+                operations: antichains that are not heads, redundant or rejected dependencies)
       kind    0 create (initial members [mi = member*4 + level] follow), 1 add, 2 remove,
               3 promote, 4 demote, 5 = submit operation number [target] again
     Operation number [i] gets operation id [i].
@@ -11,7 +16,9 @@
     Per operation the harness prints [outcome;deps;pre;post0/post1/..;heads] (see
     harness/c32/src/c33.rs); [model_line] prints the same from the Gallina [process], and the
     word [OUT] from the first operation on after which the accepted history is no longer
-    [conflict_free] (outside the modelled fragment, see Model/GroupProcess.v).
+    [conflict_free] (outside the modelled fragment, see Model/GroupProcess.v).  The operation that
+    leaves the fragment is itself still validated against a conflict-free history, so its
+    decision is exact: its line is [OUT;outcome;deps;pre].
 
     [check] is the property on the *implementation's* observations. *)
 From Coq Require Import List Arith NArith Bool String.
@@ -93,9 +100,21 @@ Record DState := mkD { rep : Replica; built : list Op; snaps : list (list N); in
 Definition current_state (y : Replica) : GroupStates :=
   match state_at y (heads y) with Some gs => gs | None => [] end.
 
+(** the declared dependencies of operation number [i] from its [depref] *)
+Definition expl_base : N := 4294967296.   (* 2^32 *)
+Definition select_bits {A} (mask : N) (l : list A) : list A :=
+  flat_map (fun jx => if N.testbit mask (N.of_nat (fst jx)) then [snd jx] else [])
+           (combine (seq 0 (List.length l)) l).
+Definition resolve_deps (depref i : N) (hs : list N) (snaps : list (list N)) : list N :=
+  if N.eqb depref 0 then hs
+  else if N.leb depref 1000 then nthN snaps (depref - 1) []
+  else if N.leb depref expl_base then
+    match select_bits (depref - 1001) hs with [] => hs | sel => sel end
+  else select_bits (depref - 1 - expl_base) (ids (N.to_nat i)).
+
 Definition step (nm ng : nat) (d : DState) (i : N) (spec : list N) : DState * string :=
   let depref := nthN spec 2 0%N in
-  let deps0 := if N.eqb depref 0 then sortN (heads (rep d)) else nthN (snaps d) (depref - 1) [] in
+  let deps0 := resolve_deps depref i (sortN (heads (rep d))) (snaps d) in
   let o := build_op i spec deps0 (built d) in
   let pre := match state_at (rep d) (op_deps o) with
              | Some gs => show_members nm (glookup (op_group o) gs)
@@ -108,7 +127,9 @@ Definition step (nm ng : nat) (d : DState) (i : N) (spec : list N) : DState * st
   let line :=
     show_outcome out ++ ";" ++ show_nums (sortN (op_deps o)) ++ ";" ++ pre ++ ";"
     ++ join "/" (map (fun g => show_members nm (glookup g cs)) (ids ng)) ++ ";" ++ show_nums hs in
-  (mkD y' (built d ++ [o]) (snaps d ++ [hs]) ins, if ins then line else "OUT").
+  let decision := show_outcome out ++ ";" ++ show_nums (sortN (op_deps o)) ++ ";" ++ pre in
+  (mkD y' (built d ++ [o]) (snaps d ++ [hs]) ins,
+   if ins then line else if inside d then "OUT;" ++ decision else "OUT").
 
 Fixpoint steps (nm ng : nat) (d : DState) (i : N) (specs : list (list N)) : list string :=
   match specs with
@@ -206,8 +227,10 @@ Fixpoint check_steps (accepted built : list Op) (prev_post : list (option (list 
       let o := build_op i s (o_deps ob) built in
       let ok := N.eqb (o_outcome ob) 0 in
       let accepted' := if ok then o :: accepted else accepted in
-      (* outside the modelled fragment (resolver filters possible): stop judging *)
-      if negb (conflict_free (mkReplica accepted' [])) then true
+      (* outside the modelled fragment (resolver filters possible): stop judging - but the
+         operation that leaves it was still validated against a conflict-free history, and its
+         [pre] was read from states stored before it: its acceptance is judged *)
+      if negb (conflict_free (mkReplica accepted' [])) then (if ok then authorised o (o_pre ob) else true)
       else
         (if ok then authorised o (o_pre ob)
          else eqb_posts (o_post ob) prev_post && eqb_listN (o_heads ob) prev_heads)
